@@ -103,11 +103,36 @@ impl C10 {
                 (a, b)
             });
             let r = decode(&format!("{token} = 1\n[x.{token}]\n"));
-            (alone, d1, d2, d3, matches!(r.verdict, Verdict::Valid))
+            // keys of a document that was not converted: their text lives in the source, and what
+            // they print on their own must still be a key token for the same name
+            let mut shown: Vec<(&'static str, String)> = Vec::new();
+            if let Ok(im) = toml_edit::ImDocument::parse(format!("{token} = 1\nt = {{ {token} = 2 }}\n[x.{token}]\n")) {
+                for (what, key) in [
+                    ("ImDocument root key", im.as_table().get_key_value(s).map(|(k, _)| k)),
+                    ("ImDocument inline key", im.as_table().get("t").and_then(|t| t.as_inline_table()).and_then(|t| t.get_key_value(s)).map(|(k, _)| k)),
+                    ("ImDocument header key", im.as_table().get("x").and_then(|t| t.as_table()).and_then(|t| t.get_key_value(s)).map(|(k, _)| k)),
+                ] {
+                    if let Some(key) = key {
+                        shown.push((what, key.display_repr().into_owned()));
+                        shown.push((what, key.to_string()));
+                        shown.push((what, key.clone().to_string()));
+                    }
+                }
+            }
+            for (what, text) in shown {
+                match decode_key(&text) {
+                    Ok(k) if k.len() == 1 && k[0] == s => {}
+                    other => return (alone, d1, d2, d3, matches!(r.verdict, Verdict::Valid), Some(format!("{what} for {token:?} shows {text:?}, which R reads as {other:?}"))),
+                }
+            }
+            (alone, d1, d2, d3, matches!(r.verdict, Verdict::Valid), None)
         });
         match r {
             Err((loc, msg)) => ctx.violation(&format!("panic:{}", crate::short_loc(&loc)), format!("parsing a written key panicked at {loc}: {msg}")),
-            Ok((alone, d1, d2, d3, r_ok)) => {
+            Ok((alone, d1, d2, d3, r_ok, shown_bad)) => {
+                if let Some(d) = shown_bad {
+                    ctx.violation(&format!("shown-key-differs:{style}"), d);
+                }
                 if !r_ok {
                     ctx.violation(&format!("key-token-invalid:{style}"), format!("R refuses a document using the key token {token:?}"));
                 }
